@@ -83,20 +83,7 @@ def run(check: Check):
   _order(check, impls)
   _empty(check, impls)
   # purity of view methods
-  pa = PurityAnalysis(repo)
-  n = 0
-  for ci in impls + [repo.cls(FD, 'ClientPreprocessor'), repo.cls(CD, 'BatchPreprocessor')]:
-    for name, mth in ci.methods.items():
-      if name in ('__init__', '__del__', '__enter__', '__exit__'):
-        continue
-      n += 1
-      bad = [mu for mu in pa.mutations(mth) if mu.root in mth.params or mu.root.startswith('<global')]
-      for mu in bad:
-        check.ob('R-PURE', mth, mu.construct, False,
-                 f'{mu.how}: deriving or reading a view must not change the dataset it was derived from ({mu.root})',
-                 node=mu.node)
-      if not bad:
-        check.ob('R-PURE', mth, f'{ci.name}.{name}', True, 'no write through self / arguments', nontrivial=False)
+  n = view_purity(check, impls + [repo.cls(FD, 'ClientPreprocessor'), repo.cls(CD, 'BatchPreprocessor')])
   check.floor('R-PURE', 'view methods', n, 35)
 
 
@@ -467,6 +454,25 @@ def _derive(check: Check):
           ok = ok and txt(ids) == 'self._client_ids'
       check.ob('R-DERIVE', mth, txt(rv)[:100] if rv is not None else 'return', ok,
                f'the wrapper must apply {name} to its base with the same arguments and keep (or narrow) its own id set', node=rv)
+
+
+def view_purity(check: Check, classes, rule: str = 'R-PURE', only=None) -> int:
+  repo = check.repo
+  pa = PurityAnalysis(repo)
+  n = 0
+  for ci in classes:
+    for name, mth in ci.methods.items():
+      if name in ('__init__', '__del__', '__enter__', '__exit__') or (only is not None and name not in only):
+        continue
+      n += 1
+      bad = [mu for mu in pa.mutations(mth) if mu.root in mth.params or mu.root.startswith('<global')]
+      for mu in bad:
+        check.ob(rule, mth, mu.construct, False,
+                 f'{mu.how}: deriving or reading a view must not change the dataset it was derived from ({mu.root})',
+                 node=mu.node, exact=True)
+      if not bad:
+        check.ob(rule, mth, f'{ci.name}.{name}', True, 'no write through self / arguments', nontrivial=False)
+  return n
 
 
 def _from_intersect(ff: FuncFlow, a: ast.Name, which: str) -> bool:
